@@ -88,7 +88,7 @@ let dump (c : cstate) : string =
          | DText t -> Buffer.add_string b ("x:" ^ hex_of_bytes t)
          | DCdata -> Buffer.add_string b "c:-"
          | DPi -> Buffer.add_string b "p:-"
-         | DTree l -> Buffer.add_string b (Printf.sprintf "r:%d" (int_of_n l)));
+         | DTree (l, tr) -> Buffer.add_string b (Printf.sprintf "r:%d" (match tr with Some _ -> int_of_n l | None -> -1)));
         Buffer.add_char b ':'; putref ord b nd.n_parent;
         Buffer.add_char b ':'; putref ord b nd.n_children;
         Buffer.add_char b ':'; putref ord b nd.n_prev;
@@ -107,6 +107,7 @@ let run_seq langid ops_s =
     let out = Buffer.create 1024 in
     let first = ref true in
     let stuck = ref false in
+    let ntrees = ref 0 in
     let ops = if ops_s = "" then [] else String.split_on_char ';' ops_s in
     (try List.iter (fun o ->
       let f = String.split_on_char ',' o in
@@ -135,7 +136,13 @@ let run_seq langid ops_s =
           Some (OpAddElt (ref_ p, tag_of k, go av))
         | ["T"; p; tx] -> Some (OpAddText (ref_ p, bytes_of_hex tx))
         | ["C"; p] -> Some (OpAddCdata (ref_ p))
-        | ["R"; p; lg; _; _] -> Some (OpAddTree (ref_ p, n_of_int (int_of_string lg)))
+        | ["R"; p; lg; _; _] -> incr ntrees; Some (OpAddTree (ref_ p, n_of_int (int_of_string lg), n_of_int !ntrees))
+        | ["ZG"; _; k] -> Some (OpAddNull (DElt (tag_of k, [])))
+        | "ZH" :: _ :: k :: _ -> Some (OpAddNull (DElt (tag_of k, [])))
+        | ["ZL"; _; nm] -> Some (OpAddNull (DElt (TagLit (bytes_of_hex nm), [])))
+        | ["ZT"; _; tx] -> Some (OpAddNull (DText (bytes_of_hex tx)))
+        | ["ZC"; _] -> Some (OpAddNull DCdata)
+        | ["ZR"; _; _; _; _] -> incr ntrees; Some (OpAddNull (DTree (n_of_int 0, None)))
         | ["B"; i; k; v] -> Some (OpAddAttr (some_ref i, bytes_of_hex k, bytes_of_hex v))
         | ["X"; i] -> Some (OpExtract (some_ref i))
         | ["I"; p; j] -> Some (OpReAdd (ref_ p, some_ref j))
@@ -174,6 +181,44 @@ let run_seq langid ops_s =
      | _ -> Buffer.add_string out " F=STUCK");
     print_endline (Buffer.contents out)
 
+(* fe <langid> <doc>: the model of the XML front end (Model/TreeGraph.v fe_doc) on a document given as '.'-separated
+   tokens:  e<namehex> [a<khex>=<vhex>]* ( item* )  |  x<hex>[+<hex>]*   (a text item and its chunks) *)
+let run_fe langid spec =
+  match Hashtbl.find_opt langs langid with
+  | None -> print_endline "nolang"
+  | Some l ->
+    let toks = Array.of_list (String.split_on_char '.' spec) in
+    let pos = ref 0 in
+    let rec item () : xnode =
+      let t = toks.(!pos) in
+      incr pos;
+      if t.[0] = 'x' then XText (List.map bytes_of_hex (String.split_on_char '+' (String.sub t 1 (String.length t - 1))))
+      else begin
+        let name = bytes_of_hex (String.sub t 1 (String.length t - 1)) in
+        let kvs = ref [] in
+        while !pos < Array.length toks && String.length toks.(!pos) > 0 && toks.(!pos).[0] = 'a' do
+          let a = toks.(!pos) in
+          let e = String.index a '=' in
+          kvs := (bytes_of_hex (String.sub a 1 (e - 1)), bytes_of_hex (String.sub a (e + 1) (String.length a - e - 1))) :: !kvs;
+          incr pos
+        done;
+        let kids = ref [] in
+        if !pos < Array.length toks && toks.(!pos) = "(" then begin
+          incr pos;
+          while toks.(!pos) <> ")" do kids := item () :: !kids done;
+          incr pos
+        end;
+        XElt (name, List.rev !kvs, List.rev !kids)
+      end in
+    (try
+      let x = item () in
+      match fe_doc (nat_of_int (int_of_nat (xsize x) + 3)) l x with
+      | TOk (t', Some _) -> print_endline (Printf.sprintf "ok%d#%s" langid (dump { ts = t'; det = [] }))
+      | TOk (_, None) -> print_endline "nocurrent"
+      | TFail -> print_endline "fail"
+      | TStuck -> print_endline "STUCK"
+    with _ -> print_endline "bad")
+
 let () =
   load_tables ();
   try while true do
@@ -181,5 +226,6 @@ let () =
     (match split_line line with
      | ["seq"; lg; _; ops] -> run_seq (int_of_string lg) ops
      | ["seq"; lg; _] -> run_seq (int_of_string lg) ""
+     | ["fe"; lg; spec] -> run_fe (int_of_string lg) spec
      | _ -> print_endline "bad")
   done with End_of_file -> ()
